@@ -48,8 +48,8 @@ RULE = (
     "For reuse-memref-allocs a memref dimension may instead equal what the original computes with its affine.min ops forced to their "
     "constant bound (the documented 'maximum possible value'); index operands, offsets and the event sequence get no such allowance. "
     "IR that does not verify or violates SSA dominance after a pass returned normally is a violation; an exception raised by a pass is a rejection. "
-    "Plus two exhaustive grids for pipeline-canonicalize-for: single loops lb in {0,1,2} x ub 0..12 x step 1..5 (and a run-time ub), and nests "
-    "(2 levels ub 0..4 x steps 1..2 x marker before/after the inner loop; sibling inner loops with a marker between; 3 levels with a marker at the middle level). "
+    "Plus two exhaustive grids for pipeline-canonicalize-for: single loops lb in {-2..2} x ub -2..12 x step 1..5 (and a run-time ub), and nests "
+    "(2 levels ub -2..4 x steps 1..2 x marker before/after the inner loop; sibling inner loops with a marker between; 3 levels with a marker at the middle level). "
     "Non-trivial: the pass changed the (op, loop depth) profile (structure changed or an op moved/was replaced) and some loop body ran >= 2 times; distinct by recipe hash."
 )
 ASSUMPTIONS = [
@@ -452,8 +452,8 @@ def _for(lb, ub, step, body, carried=()):
 
 
 def grid_single(tier):
-    """Single loops: lb in {0,1,2}, ub 0..12, step 1..5, all constant; plus the same with a run-time ub (pass must not touch it)."""
-    for lb, ub, stp in itertools.product((0, 1, 2), range(13), range(1, 6)):
+    """Single loops: lb in {-2..2}, ub -2..12, step 1..5, all constant; plus the same with a run-time ub (pass must not touch it)."""
+    for lb, ub, stp in itertools.product((-2, -1, 0, 1, 2), range(-2, 13), range(1, 6)):
         yield _base([_for(["c", lb], ["c", ub], ["c", stp], [["mark", [-1]]])], [CANON])
     for ub, stp in itertools.product(range(13), range(1, 6)):
         yield _base([_for(["c", 0], ["a"], ["c", stp], [["mark", [-1]]])], [CANON],
@@ -461,9 +461,9 @@ def grid_single(tier):
 
 
 def grid_nest(tier):
-    """Two-level nests, ub1/ub2 in 0..4, steps 1..2, a marker before and/or after the inner loop; sibling inner loops with a marker
-    between; three-level nests with a marker at the middle level."""
-    for u1, u2, s1, s2, before, after in itertools.product(range(5), range(5), (1, 2), (1, 2), (0, 1), (0, 1)):
+    """Two-level nests, ub1/ub2 in -2..4 (negative = zero trips), steps 1..2, a marker before and/or after the inner loop; sibling inner
+    loops with a marker between; three-level nests with a marker at the middle level."""
+    for u1, u2, s1, s2, before, after in itertools.product(range(-2, 5), range(-2, 5), (1, 2), (1, 2), (0, 1), (0, 1)):
         inner = _for(["c", 0], ["c", u2], ["c", s2], [["mark", [-2, -1]]])
         body = ([["mark", [-1]]] if before else []) + [inner] + ([["mark", [-1]]] if after else [])
         yield _base([_for(["c", 0], ["c", u1], ["c", s1], body)], [CANON])
